@@ -2,18 +2,19 @@
 //! Reuses the deterministic Swarm rig of h_swarm (scripted transport / muxer / probe behaviour).
 #[path = "../../h_swarm/src/sim.rs"]
 mod sim;
+mod c52;
+mod runner;
 
 fn main() {
     let args = hcore::Args::parse();
     hcore::quiet_panics();
     let mut out = hcore::Out::new();
     match args.prop.as_str() {
+        "C52" => c52::run(&args, &mut out),
         p => {
-            let _ = &mut out;
             eprintln!("h_sw_d: unknown property {p}");
             std::process::exit(2);
         }
     }
-    #[allow(unreachable_code)]
     out.flush();
 }
